@@ -242,7 +242,7 @@ def check(ctx):
     for comp in comps:
         ctx.rules.append("%s: %s" % (comp.name, comp.rule))
         fails = vlib.check_component(ctx, comp)
-        if not ctx.proof_ok and not [f for f in fails if f["kind"] == "L1"]:
+        if ctx.enlarge() and not [f for f in fails if f["kind"] == "L1"]:
             fails += vlib.check_component(ctx, comp, budget_mult=10)     # broken proof: enlarge the search
         # standard flow + minimisation inside the argument vectors of the shortest property-level failures
         exe = os.path.join(ctx.tmp, comp.name)
